@@ -1463,33 +1463,40 @@ Fixpoint eval (fuel : nat) (st : state) (env : loc) (e : expr) {struct fuel} : s
              | [] => let '(st', n) := alloc st (CMap acc) in (st', OV (VRef KMap n))
              | it :: t =>
                let st' := env_put st lenv x it in
-               let '(st1, ok) := ev st' lenv ke in
-               match operand ok with
-               | inr bad => (st1, bad)
-               | inl k =>
-                 let '(st2, ov) := ev st1 lenv ve in
-                 match operand ov with
-                 | inr bad => (st2, bad)
-                 | inl v =>
-                   let put := (fix put (m : list (value * value)) : option (list (value * value)) :=
-                                 match m with
-                                 | [] => Some [(k, v)]
-                                 | (k', v') :: t' => match veqV st2 k' k with
-                                                     | Some true => Some ((k', v) :: t')
-                                                     | Some false => option_map (cons (k', v')) (put t')
-                                                     | None => None
-                                                     end
-                                 end) in
-                   match cond with
-                   | None => match put acc with Some acc' => go st2 t acc' | None => (st2, OUnm) end
-                   | Some ce =>
-                     let '(st3, oc) := ev st2 lenv ce in
-                     match operand oc with
-                     | inr bad => (st3, bad)
-                     | inl (VBool true) => match put acc with Some acc' => go st3 t acc' | None => (st3, OUnm) end
-                     | inl (VBool false) => go st3 t acc
-                     | inl _ => (st3, oerr)
-                     end
+               (* the filter first; key and value only for the elements it accepts (as in the equivalent loop) *)
+               let '(stc, accept) :=
+                 match cond with
+                 | None => (st', inl true)
+                 | Some ce =>
+                   let '(st3, oc) := ev st' lenv ce in
+                   match operand oc with
+                   | inr bad => (st3, inr bad)
+                   | inl (VBool b) => (st3, inl b)
+                   | inl _ => (st3, inr oerr)
+                   end
+                 end in
+               match accept with
+               | inr bad => (stc, bad)
+               | inl false => go stc t acc
+               | inl true =>
+                 let '(st1, ok) := ev stc lenv ke in
+                 match operand ok with
+                 | inr bad => (st1, bad)
+                 | inl k =>
+                   let '(st2, ov) := ev st1 lenv ve in
+                   match operand ov with
+                   | inr bad => (st2, bad)
+                   | inl v =>
+                     let put := (fix put (m : list (value * value)) : option (list (value * value)) :=
+                                   match m with
+                                   | [] => Some [(k, v)]
+                                   | (k', v') :: t' => match veqV st2 k' k with
+                                                       | Some true => Some ((k', v) :: t')
+                                                       | Some false => option_map (cons (k', v')) (put t')
+                                                       | None => None
+                                                       end
+                                   end) in
+                     match put acc with Some acc' => go st2 t acc' | None => (st2, OUnm) end
                    end
                  end
                end
